@@ -46,11 +46,28 @@ def run(ctx):
     for inc in bsumm["incidents"]:
         core.report(ctx, {"check": "replay-burst", "kind": inc["kind"], "where": inc["detail"] if inc["kind"] == "lock-held" else "", "site": inc["site"]}, inc)
     bv = core.validate_traces(ctx, "Trace_Tables.tla", "Trace_Tables_strict.cfg", "Trace_Tables_mon.cfg", btrace, "burst", timeout=600, max_viol=3)
+    # ---- requests under the magic value of an agent type a service has registered (ThirdParty.tla)
+    core.design_check(ctx, "ThirdParty.tla", "ThirdParty.cfg", timeout=600)
+    tp = core.generate(ctx, "Gen_ThirdParty.tla", "Gen_ThirdParty.cfg", 0, 0, ctx.seed, bfs=True, timeout=600)
+    import random
+    rnd = random.Random(ctx.seed); rnd.shuffle(tp)
+    gu = [b for b in tp if any(s["op"] == "GiveUp" for s in b)][:16 if quick else 64]        # a silent service costs the handler's whole patience
+    tp = [b for b in tp if not any(s["op"] == "GiveUp" for s in b)][:300 if quick else 4000] + gu
+    tp += [[{"op": "SvcUp"}] + [{"op": "Burst", "n": 16}, {"op": "BurstAnswered"}] * 12 for _ in range(4 if quick else 16)]      # many bursts in a row
+    ctx.say("  third-party histories: %d (%d with a service that never answers)" % (len(tp), len(gu)))
+    ptrace, psumm = core.run_harness(ctx, hb, "thirdparty", tp, "thirdparty", timeout=2400)
+    for inc in psumm["incidents"]:
+        core.report(ctx, {"check": "replay-thirdparty", "kind": inc["kind"], "site": inc["site"][:120]}, inc)
+    pv = core.validate_traces(ctx, "Trace_ThirdParty.tla", "Trace_ThirdParty_strict.cfg", "Trace_ThirdParty_mon.cfg", ptrace, "thirdparty", timeout=1500)
+    for x in pv["violations"]:
+        evs = [json.loads(l) for l in x["lines"]]
+        ev = evs[x["event"] - 1] if 0 < x["event"] <= len(evs) else {}
+        core.report(ctx, {"check": "Mon_ThirdParty", "invariant": x["invariant"], "op": ev.get("ev", "?"), "after": [e.get("ev") for e in evs[1:x["event"] - 1]][-2:]}, {"events": evs, "failing_event": x["event"]})
     core.write_evidence(ctx, "model_checking",
-        rule="cells = state class (fresh / outstanding tasks / open download / two-hop pivot, each with and without a Service block) x packet class (header length 0..19, 20, full; Demon / foreign magic; known / unknown / zero / pivot-child agent id; first command init / get-job / callback / both; 34 command ids incl. unknown x 31 sub ids x 16 body shapes incl. truncations, odd UTF-16 lengths, 2^32-1 length prefixes, nested valid and invalid registrations, random bytes; right / wrong key; relayed 0..2 hops); every (command, sub, shape) cell goes past the request-id gate of a tasked agent, the rest is sampled; each request runs under a watchdog with panic capture, mutex probes and a full state diff; non-trivial = cells; plus histories = for every reachable state of the agent's download and port-forward tables (ids known/unknown, empty file, forward target up/down, dialled or not) every well-formed callback, replayed as the shortest history reaching it on a fresh agent with the same probes after every step; plus bursts = rounds of 4 / 16 simultaneous check-ins for one session (queue empty / one task / alternating), every request answered and every session mutex free afterwards",
+        rule="cells = state class (fresh / outstanding tasks / open download / two-hop pivot, each with and without a Service block) x packet class (header length 0..19, 20, full; Demon / foreign magic; known / unknown / zero / pivot-child agent id; first command init / get-job / callback / both; 34 command ids incl. unknown x 31 sub ids x 16 body shapes incl. truncations, odd UTF-16 lengths, 2^32-1 length prefixes, nested valid and invalid registrations, random bytes; right / wrong key; relayed 0..2 hops); every (command, sub, shape) cell goes past the request-id gate of a tasked agent, the rest is sampled; each request runs under a watchdog with panic capture, mutex probes and a full state diff; non-trivial = cells; plus histories = for every reachable state of the agent's download and port-forward tables (ids known/unknown, empty file, forward target up/down, dialled or not) every well-formed callback, replayed as the shortest history reaching it on a fresh agent with the same probes after every step; plus bursts = rounds of 4 / 16 simultaneous check-ins for one session (queue empty / one task / alternating), every request answered and every session mutex free afterwards; plus third-party histories = service up / down, requests under its magic value answered, left unanswered (handler patience 20 s), in flight when the service goes away, bursts of 16 at the same moment (12 in a row), each followed by a liveness probe",
         samples=summ["samples"], evaluations=summ["behaviours"] + tsumm["behaviours"], distinct_nontrivial=len(cells) + len(hbehs), exhaustive=False,
-        extra={"counters": summ["counters"], "history_counters": tsumm["counters"], "histories": len(hbehs), "burst_counters": bsumm["counters"]},
-        assumptions=["the packet class partition stands for 'all request bodies' (plus random bytes inside the 'random' shape); HTTP(S) listeners share parseAgentRequest with the External endpoint used here", "third-party (service) agent traffic with a registered magic value is not generated"])
+        extra={"counters": summ["counters"], "history_counters": tsumm["counters"], "histories": len(hbehs), "burst_counters": bsumm["counters"], "thirdparty_counters": psumm["counters"], "thirdparty_histories": len(tp)},
+        assumptions=["the packet class partition stands for 'all request bodies' (plus random bytes inside the 'random' shape); HTTP(S) listeners share parseAgentRequest with the External endpoint used here", "third-party traffic: one registered agent type, the harness is the service; the service's own frames are well-formed"])
 
 def _where(detail):
     m = re.findall(r"Havoc/[\w/]+\.(?:\(\*?\w+\)\.)?(\w+)\(", detail or "")
